@@ -266,3 +266,28 @@ def unique_labels(body):
         return ("if", st[1], br(st[2]), br(st[3]))
 
     return fix(body)
+
+
+def insert_noise(rng, body, k=1):
+    """Insert k statements that declare nothing and jump nowhere (nested empty blocks, empty if / if-else) at random
+    places of the body, also inside nested blocks. The verdict on labels and variables must not depend on them."""
+    import copy
+    body = copy.deepcopy(body)
+    noise = [("block", [("block", [])]), ("block", []), ("if", cond_true(), ("block", []), None),
+             ("if", cond_false(), ("block", [("block", [])]), ("block", [])), ("block", [("block", [("block", [])])]),
+             ("if", cond_true(), ("block", [("if", cond_false(), ("block", []), None)]), None)]
+
+    def lists(stmts, acc):
+        acc.append(stmts)
+        for i, st in enumerate(stmts):
+            if st[0] == "block":
+                lst = list(st[1])
+                stmts[i] = ("block", lst)
+                lists(lst, acc)
+        return acc
+
+    for _ in range(k):
+        all_lists = lists(body, [])
+        target = rng.choice(all_lists)
+        target.insert(rng.randrange(len(target) + 1), rng.choice(noise))
+    return body
